@@ -400,7 +400,17 @@ func runC18(p *core.Prog, r *core.Report, tier string) {
 		}) {
 			nHB++
 			k := 0
+			var deciders []*ssa.If
 			for _, di := range decidingIfs(f, ci.(ssa.Instruction)) {
+				// a flag merged from constants (the `ok` of an inlined helper): the tests that set it are judged
+				if ups := constFlagDecidersAny(di.If); ups != nil {
+					deciders = append(deciders, ups...)
+					continue
+				}
+				deciders = append(deciders, di.If)
+			}
+			for _, dIf := range deciders {
+				di := struct{ If *ssa.If }{dIf}
 				k++
 				c := core.DecodeCond(ds, di.If)
 				okc := false
